@@ -21,6 +21,7 @@
 #include <memory>
 #include <mutex>
 #include <sstream>
+#include <string>
 #include "celma/common/no_lock.hpp"
 #include "celma/log/detail/format_stream_default.hpp"
 #include "celma/log/detail/i_format_base.hpp"
@@ -126,8 +127,16 @@ template< typename P, typename L>
 
    mpFormatter->formatMsg( msg_text, msg);
 
+   // the file policy writes the line end itself: formatters that are made for
+   // stream destinations (like the default formatter) have added one already,
+   // the entry would then take two lines in the file
+   std::string  text( msg_text.str());
+
+   if (!text.empty() && (text.back() == '\n'))
+      text.pop_back();
+
    const std::lock_guard< L>  lock( mLockType);
-   mpFilePolicy->writeMessage( msg, msg_text.str());
+   mpFilePolicy->writeMessage( msg, text);
 } // Handler< P, L>::message
 
 
